@@ -87,11 +87,14 @@ def contract(key, **kw):
 
 
 class ClassSpec:
-    def __init__(self, name, fields=None, invariant=(), ghost=None):
+    def __init__(self, name, fields=None, invariant=(), ghost=None, ghost_link=()):
         self.name = name
         self.fields = dict(fields or {})
         self.invariant = list(invariant)
         self.ghost = dict(ghost or {})
+        # definitions of ghost variables in terms of the object's state (e.g. ghost.n == len(self.xs)): assumed at the
+        # entry of every method, never an obligation (ghost state is specification-only and defined BY this link)
+        self.ghost_link = list(ghost_link)
 
 
 def klass(name, **kw):
@@ -103,6 +106,9 @@ def klass(name, **kw):
         for i in c.invariant:
             if i not in old.invariant:
                 old.invariant.append(i)
+        for i in c.ghost_link:
+            if i not in old.ghost_link:
+                old.ghost_link.append(i)
         return old
     REG["classes"][name] = c
     return c
